@@ -468,3 +468,90 @@ Example C13_later_rule_claims_its_script_nonvacuous :
   serve false (fun _ => false) (fun _ => false) [php_rule; pl_rule] 0 (bs "/cgi/tool.pl/extra/info") = ODispatch 1 (bs "/cgi/tool.pl/extra/info") /\
   serve false (fun _ => true) (fun _ => true) [php_rule] 0 (bs "/cgi/tool.pl") = ONext.
 Proof. exact later_rule_witness. Qed.
+
+(* ---------- the directive's setup: a preset on the directive line combined with a block ---------- *)
+
+(* fastcgiParse applies the preset FIRST and the block's sub-directives after it, in the order written:
+   for EVERY directive (any preset the code knows or none, any block) the rule it produces is the one
+   the configuration says — every setting given in the block wins over the preset's value, the last
+   one given wins, env entries accumulate in order, fields given nowhere keep the preset's value (or
+   are empty without preset), the root is the site root unless the block names one. *)
+Theorem C13_block_settings_override_preset :
+  forall absroot c r, parse_rule absroot c = Some r -> r = eff_rule absroot c.
+Proof. exact parse_rule_is_declared. Qed.
+Print Assumptions C13_block_settings_override_preset.
+
+Theorem C13_block_ext_split_index_win_over_preset :
+  forall absroot path pre its post r,
+  parse_rule absroot {| c_path := path; c_preset := pre; c_items := its ++ post |} = Some r ->
+  (forall v tl, post = IExt v :: tl -> forallb (fun it => match it with IExt _ => false | _ => true end) tl = true -> r_ext r = v) /\
+  (forall v tl, post = ISplit v :: tl -> forallb (fun it => match it with ISplit _ => false | _ => true end) tl = true -> r_split r = v) /\
+  (forall v tl, post = IIndex v :: tl -> forallb (fun it => match it with IIndex _ => false | _ => true end) tl = true -> r_index r = v).
+Proof. exact block_settings_win. Qed.
+Print Assumptions C13_block_ext_split_index_win_over_preset.
+
+(* the setup refuses exactly the configurations that name a preset the code does not know *)
+Theorem C13_setup_refuses_only_unknown_presets :
+  forall absroot c, parse_rule absroot c = None <-> preset_known c = false.
+Proof. exact parse_rule_refuses_iff. Qed.
+Print Assumptions C13_setup_refuses_only_unknown_presets.
+
+Theorem C13_setup_rules_are_the_declared_rules :
+  forall absroot cs,
+  (forall rs, parse_rules absroot cs = Some rs -> rs = map (eff_rule absroot) cs) /\
+  (forallb preset_known cs = true -> exists rs, parse_rules absroot cs = Some rs).
+Proof. exact setup_rules_are_declared. Qed.
+Print Assumptions C13_setup_rules_are_the_declared_rules.
+
+(* end to end at model level: a directive with a preset AND its own extension in the block — an existing
+   script with the block's extension (any letter case) under the rule's path is sent to the responder *)
+Theorem C13_preset_with_own_ext_dispatched :
+  forall absroot c r stat_ok open_ok p,
+  parse_rule absroot c = Some r ->
+  let d := eff_rule absroot c in
+  rule_matches false d p = true -> allowed false d p = true ->
+  r_ext d <> [] -> last_byte (r_ext d) <> Some SLASH ->
+  to_lower (r_split d) = to_lower (r_ext d) ->
+  has_suffix (to_lower (trim_right p)) (to_lower (r_ext d)) = true ->
+  exists j, serve false stat_ok open_ok [r] 0 p = ODispatch j (trim_right p).
+Proof. exact preset_with_own_ext_dispatched. Qed.
+Print Assumptions C13_preset_with_own_ext_dispatched.
+
+Example C13_preset_with_block_nonvacuous :
+  parse_rule (bs "/srv") php5_cfg =
+    Some {| r_path := bs "/"; r_ext := bs ".php5"; r_split := bs ".php5"; r_index := [bs "index.php5"];
+            r_except := []; r_env := [(bs "APP_ENV", bs "prod")]; r_root := bs "/srv" |} /\
+  parse_rule (bs "/srv") {| c_path := bs "/"; c_preset := Some (bs "php"); c_items := [] |} =
+    Some {| r_path := bs "/"; r_ext := bs ".php"; r_split := bs ".php"; r_index := [bs "index.php"];
+            r_except := []; r_env := []; r_root := bs "/srv" |} /\
+  parse_rule (bs "/srv") {| c_path := bs "/"; c_preset := Some (bs "python"); c_items := [IExt (bs ".py")] |} = None /\
+  (exists r, parse_rule (bs "/srv") php5_cfg = Some r /\
+     serve false (fun _ => true) (fun _ => true) [r] 0 (bs "/info.php5") = ODispatch 0 (bs "/info.php5") /\
+     serve false (fun _ => true) (fun _ => true) [r] 0 (bs "/INFO.PHP5") = ODispatch 0 (bs "/INFO.PHP5")).
+Proof. exact php5_cfg_witness. Qed.
+
+(* ---------- several responses being read at the same time ---------- *)
+
+(* For EVERY set of responder byte streams and EVERY schedule of Read calls over their readers (which
+   reader reads next, with what buffer size): what reader i has delivered, the error it ended with and
+   its state are exactly what it gets reading ITS OWN stream alone with its own sequence of buffer
+   sizes.  The delivered bytes of a response are a function of its own record stream: the readers of
+   different responses share no buffer. *)
+Theorem C13_responses_do_not_share_buffers :
+  forall conns sched rs i,
+  (i < length conns)%nat ->
+  run_sched (map rd_init conns) sched = Ok rs ->
+  sr_read_all (sr_init (nth i conns [])) (sizes_of i sched) [] =
+    Ok (rd_data (nth i rs (rd_init [])), rd_err (nth i rs (rd_init [])), rd_s (nth i rs (rd_init []))).
+Proof. exact responses_do_not_share_buffers. Qed.
+Print Assumptions C13_responses_do_not_share_buffers.
+
+Theorem C13_overlapping_reads_no_panic :
+  forall sched rs, exists rs', run_sched rs sched = Ok rs'.
+Proof. exact run_sched_no_panic. Qed.
+Print Assumptions C13_overlapping_reads_no_panic.
+
+Example C13_responses_do_not_share_buffers_nonvacuous :
+  exists rs, run_sched (map rd_init two_conns) [(0, 3); (1, 8); (1, 8); (0, 8); (1, 8); (0, 8)]%nat = Ok rs /\
+             map rd_data rs = [bs "AAAAAAAA"; bs "BBBBbb"] /\ map rd_err rs = [Some REOF; Some REOF].
+Proof. exact two_conns_witness. Qed.
